@@ -131,6 +131,9 @@ func (h accountsResourceHandler) Expand(opts common.ResourceQuery[any], property
 		if !h.store.ledger.HasFeature(features.FeatureMovesHistoryPostCommitEffectiveVolumes, "SYNC") {
 			return nil, nil, common.NewErrInvalidQuery("feature %s must be 'SYNC' to use effectiveVolumes", features.FeatureMovesHistoryPostCommitEffectiveVolumes)
 		}
+	default:
+		// the property names a column of the generated SQL: accept nothing but the two known expansions
+		return nil, nil, common.NewErrInvalidQuery("unknown expansion '%s'", property)
 	}
 
 	selectRowsQuery := h.store.newScopedSelect().
